@@ -148,7 +148,7 @@ Proof.
     assert (I2 : elinv st2) by (unfold elinv in *; congruence).
     assert (V2 : V st2).
     { destruct HV as [H1 H2]. unfold V, goodv, names_root in *. rewrite El2.
-      split; intros k vt Hin Y Z; [destruct (H1 _ _ Hin Y Z) as [r0 [A B]] | destruct (H2 _ _ Hin Y Z) as [r0 [A B]]];
+      split; intros k vt Hin Y; [destruct (H1 _ _ Hin Y) as [r0 [A B]] | destruct (H2 _ _ Hin Y) as [r0 [A B]]];
         exists r0; split; auto. }
     destruct (handle_election cap end_block (S (S (N.to_nat (a_frame e - spf)))) es st2 e (spf + 1) []) as [[r2 bl2] st3] eqn:HE.
     destruct (handle_election_rooted e _ _ _ _ _ _ V2 I2 HE) as [AR VV].
